@@ -4,9 +4,23 @@
  * barrier, spin hint, poll and mutex operation of the unmodified algorithm text is an event and a
  * scheduling point.
  *
- * build: gcc wfs.c vrt.c            (plain accesses: see wfs_tsan variant in props/c11.py)
- * run:   wfs --seed N --scheme mutex|single --pushers P --poppers Q --ops N --nodes M [--c17]
+ * With -DWITH_RCU the REAL src/urcu.c (memb flavor, -DRCU_MEMBARRIER) is compiled in too (scheme
+ * "rcu" = synchronisation technique 1 of urcu/wfstack.h): any number of consumers call
+ * __cds_wfs_pop_[with_state_]{blocking,nonblocking} concurrently, WITHOUT the stack mutex, inside
+ * rcu_read_lock()/rcu_read_unlock() sections; __cds_wfs_pop_all is called inside or outside a
+ * section; nodes handed out by pop / by the iteration over a pop_all list are retired and recycled
+ * by a reclaimer thread only after synchronize_rcu().
+ *
+ * build: gcc wfs.c vrt.c                                  schemes mutex | single
+ *        gcc -DWITH_RCU -DRCU_MEMBARRIER wfs.c vrt.c vrt_compat_futex.c compat_arch.c     scheme rcu
+ * run:   wfs --seed N --scheme mutex|single|rcu --pushers P --poppers Q --ops N --nodes M [--c17]
  *            --trace FILE   (the oracle re-reads the recorded history from FILE)
+ *
+ * RCU build: the stack driver owns the locations `head`, `lock`, `n<k>`; everything the real flavor
+ * does between the scenario's CALL/RET markers of rlock / runlock / sync / register / unregister is
+ * skipped by it (checked by C01's driver), only the markers are mapped to the abstract grace-period
+ * steps of the L2 model: section begins at RET rlock, ends at CALL runlock; the grace period starts
+ * at CALL sync and ends at RET sync - where the model's GpSpec guard must hold.
  *
  * Threads: P pushers (node from the free pool, cds_wfs_node_init, cds_wfs_push); consumers mixing
  * cds_wfs_pop_blocking / pop_with_state_blocking / pop_all_blocking (internal mutex), explicit
@@ -25,6 +39,11 @@
 #include "stack_tsan.h"
 #endif
 #include "wfstack.c"
+#ifdef WITH_RCU
+/* after wfstack.c: urcu.c defines _LGPL_SOURCE, so that its own use of the wfstack (gp_waiters)
+ * resolves to the wrappers emitted by wfstack.c above instead of clashing with them */
+#include "urcu.c"
+#endif
 
 /* C17 operation kinds; own scheduling points: push = MB XCHG ST; __pop_all = XCHG MB;
  * pop_nonblocking = LD LD CAS MB; next_nonblocking = LD; empty = LD */
@@ -41,9 +60,13 @@ static struct wnode { struct cds_wfs_node n; } nodes[MAXN];
 static int pool_free[MAXN];
 static int nnodes = 8, npushers = 2, npoppers = 1, nops = 12, scheme = SCH_MUTEX;
 static int running_others;		/* threads other than the drainer still running */
-static int drainer_tid;
+static int drainer_tid, reclaimer_tid;
 static int inflight_push;		/* threads between CALL push and RET push */
 static unsigned long push_activity;
+static int inflight_take;		/* rcu: threads between CALL and RET of pop / pop_all */
+static unsigned long take_activity;
+static int retired[MAXN], nretired;	/* rcu: handed to the reclaimer */
+static int all_done;
 
 static int nid(struct cds_wfs_node *n) { return (int)((struct wnode *)n - nodes); }
 
@@ -69,11 +92,22 @@ static int alloc_node(void)
 	return -1;
 }
 
+/* the popper is done with the node: recycle at once (mutex, single) or after a grace period */
 static void free_node(struct cds_wfs_node *n)
 {
-	vrt_log("FREE n%d", nid(n));
-	pool_free[nid(n)] = 1;
+	if (scheme == SCH_RCU) {
+		vrt_log("RETIRE n%d %d", nid(n), reclaimer_tid);
+		retired[nretired++] = nid(n);
+	} else {
+		vrt_log("FREE n%d", nid(n));
+		pool_free[nid(n)] = 1;
+	}
 }
+
+#ifdef WITH_RCU
+static void rlock(void) { vrt_log("CALL rlock"); rcu_read_lock(); vrt_log("RET rlock"); }
+static void runlock(void) { vrt_log("CALL runlock"); rcu_read_unlock(); vrt_log("RET runlock"); }
+#endif
 
 /* ---- operations --------------------------------------------------------------------------- */
 static void do_push(void)
@@ -97,13 +131,22 @@ static void check_wouldblock(int infl0, unsigned long act0, const char *what)
 		vrt_fail("wouldblock", "%s returned WOULDBLOCK although no push was in progress during the call", what);
 }
 
+/* rcu: a non-blocking pop also gives up when a concurrent pop / pop_all took the node it loaded
+ * (ti0 = pops / pop_alls of other threads in progress when the call began; ta0 = take_activity then:
+ * the call itself adds 2) */
+static void check_wouldblock_rcu(int infl0, unsigned long act0, int ti0, unsigned long ta0, const char *what)
+{
+	if (!infl0 && act0 == push_activity && !ti0 && ta0 + 2 == take_activity)
+		vrt_fail("wouldblock", "%s returned WOULDBLOCK although no push, pop or pop_all was in progress during the call", what);
+}
+
 /* variant: 0 cds_wfs_pop_blocking, 1 cds_wfs_pop_with_state_blocking (both take the lock inside),
  * 2.. __ variants (caller holds the lock / is the single consumer): bit0 state, bit1 nonblocking */
-static void do_pop(int variant)
+static struct cds_wfs_node *do_pop(int variant)
 {
 	struct cds_wfs_node *n;
-	int state = -1, infl0 = inflight_push, nb = 0;
-	unsigned long act0 = push_activity;
+	int state = -1, infl0 = inflight_push, nb = 0, ti0 = 1;
+	unsigned long act0 = push_activity, ta0 = 0;
 	if (variant < 2) {
 		vrt_log("CALL pop blocking=1 state=%d locked=1", variant);
 		n = variant ? cds_wfs_pop_with_state_blocking(&stk, &state) : cds_wfs_pop_blocking(&stk);
@@ -112,15 +155,24 @@ static void do_pop(int variant)
 		nb = (variant >> 1) & 1;
 		if (nb) c17_op_begin(K_POP_NB);
 		infl0 = inflight_push; act0 = push_activity;
+		ti0 = inflight_take; ta0 = take_activity;
+		inflight_take++; take_activity++;
 		vrt_log("CALL pop blocking=%d state=%d locked=0", !nb, st);
 		if (nb) n = st ? __cds_wfs_pop_with_state_nonblocking(&stk, &state) : __cds_wfs_pop_nonblocking(&stk);
 		else n = st ? __cds_wfs_pop_with_state_blocking(&stk, &state) : __cds_wfs_pop_blocking(&stk);
+		inflight_take--; take_activity++;
 	}
 	if (state >= 0) vrt_log("RET pop %s %d", ntok(n), state);
 	else vrt_log("RET pop %s -", ntok(n));
 	if (nb) c17_op_end(K_POP_NB);
-	if (n == CDS_WFS_WOULDBLOCK) check_wouldblock(infl0, act0, "pop_nonblocking");
-	else if (n) free_node(n);
+	if (n == CDS_WFS_WOULDBLOCK) {
+		if (scheme == SCH_RCU) check_wouldblock_rcu(infl0, act0, ti0, ta0, "pop_nonblocking");
+		else check_wouldblock(infl0, act0, "pop_nonblocking");
+		return NULL;
+	}
+	/* rcu: the caller releases the node after leaving its read-side section */
+	if (n && scheme != SCH_RCU) free_node(n);
+	return n;
 }
 
 static void iterate(struct cds_wfs_head *head)
@@ -151,8 +203,10 @@ static void do_pop_all(int locked)
 {
 	struct cds_wfs_head *h;
 	if (!locked) c17_op_begin(K_POPALL);
+	inflight_take++; take_activity++;
 	vrt_log("CALL pop_all locked=%d", locked);
 	h = locked ? cds_wfs_pop_all_blocking(&stk) : __cds_wfs_pop_all(&stk);
+	inflight_take--; take_activity++;
 	vrt_log("RET pop_all %s", ntok(h));
 	if (!locked) c17_op_end(K_POPALL);
 	if (h) iterate(h);
@@ -174,6 +228,33 @@ static void xunlock(void) { vrt_log("CALL unlock"); cds_wfs_pop_unlock(&stk); vr
 static void consumer_op(void)
 {
 	unsigned c = vrt_rand() % 100;
+#ifdef WITH_RCU
+	if (scheme == SCH_RCU) {
+		if (c < 55) {
+			/* 1-3 pops (any __ variant, no mutex) in one read-side section; the nodes are
+			 * released - retired - after the section */
+			int k, m = 1 + vrt_rand() % 3;
+			struct cds_wfs_node *got[3];
+			rlock();
+			for (k = 0; k < m; k++) {
+				got[k] = do_pop(2 + vrt_rand() % 4);
+				if (vrt_rand() % 4 == 0) vrt_sleep(1 + vrt_rand() % 30);	/* long section */
+			}
+			runlock();
+			for (k = 0; k < m; k++)
+				if (got[k]) free_node(got[k]);
+		} else if (c < 68) {
+			/* no section needed around __cds_wfs_pop_all; with and without */
+			int in = vrt_rand() % 2;
+			if (in) rlock();
+			do_pop_all(0);
+			if (in) runlock();
+		} else if (c < 75) do_empty();
+		else if (c < 90) do_push();
+		else vrt_sleep(1 + vrt_rand() % 20);
+		return;
+	}
+#endif
 	if (scheme == SCH_SINGLE) {
 		if (c < 40) do_pop(2 + vrt_rand() % 4);
 		else if (c < 60) do_pop_all(0);
@@ -212,19 +293,66 @@ static void *pusher(void *arg)
 static void *consumer(void *arg)
 {
 	int i, me = (int)(long)arg;
+	(void)me;
+#ifdef WITH_RCU
+	vrt_log("CALL register"); rcu_register_thread(); vrt_log("RET register");
+#endif
 	for (i = 0; i < nops; i++)
 		consumer_op();
-	if (vrt_self() != drainer_tid) { running_others--; return NULL; }
-	(void)me;
-	while (running_others > 0)
-		vrt_sleep(20);
-	/* final drain: nothing may be lost */
-	if (scheme == SCH_SINGLE) { do_pop(2); do_pop_all(0); do_pop(3); }
-	else { do_pop(1); do_pop_all(1); do_pop(0); }
-	do_empty();
-	c17_stop = 1;
+	if (vrt_self() != drainer_tid) {
+		running_others--;
+	} else {
+		while (running_others > 0)
+			vrt_sleep(20);
+		/* final drain: nothing may be lost */
+#ifdef WITH_RCU
+		if (scheme == SCH_RCU) {
+			struct cds_wfs_node *n;
+			rlock(); n = do_pop(2); runlock();
+			if (n) free_node(n);
+			do_pop_all(0);
+			rlock(); n = do_pop(3); runlock();
+			if (n) free_node(n);
+		} else
+#endif
+		if (scheme == SCH_SINGLE) { do_pop(2); do_pop_all(0); do_pop(3); }
+		else { do_pop(1); do_pop_all(1); do_pop(0); }
+		do_empty();
+		c17_stop = 1;
+		all_done = 1;
+	}
+#ifdef WITH_RCU
+	vrt_log("CALL unregister"); rcu_unregister_thread(); vrt_log("RET unregister");
+#endif
 	return NULL;
 }
+
+#ifdef WITH_RCU
+/* recycles retired nodes, but only after a grace period of the real flavor */
+static void *reclaimer(void *arg)
+{
+	int batch[MAXN], nb, i, last = 0;
+	(void)arg;
+	for (;;) {
+		if (all_done) last = 1;
+		nb = nretired;
+		memcpy(batch, retired, nb * sizeof(int));
+		nretired = 0;
+		if (nb) {
+			vrt_log("CALL sync");
+			synchronize_rcu();
+			vrt_log("RET sync");
+			for (i = 0; i < nb; i++) {
+				vrt_log("FREE n%d", batch[i]);
+				pool_free[batch[i]] = 1;
+			}
+		}
+		if (last && !nretired) break;
+		vrt_sleep(5 + vrt_rand() % 40);
+	}
+	return NULL;
+}
+#endif
 
 int main(int argc, char **argv)
 {
@@ -235,13 +363,21 @@ int main(int argc, char **argv)
 		if (!strcmp(argv[i], "--trace") && i + 1 < argc) trace_path = argv[i + 1];
 	argc = vrt_init(argc, argv);
 	for (i = 1; i < argc; i++) {
-		if (!strcmp(argv[i], "--scheme") && i + 1 < argc) { i++; scheme = !strcmp(argv[i], "single") ? SCH_SINGLE : SCH_MUTEX; }
+		if (!strcmp(argv[i], "--scheme") && i + 1 < argc) {
+			i++;
+			scheme = !strcmp(argv[i], "single") ? SCH_SINGLE : !strcmp(argv[i], "rcu") ? SCH_RCU : SCH_MUTEX;
+		}
 		else if (!strcmp(argv[i], "--pushers") && i + 1 < argc) npushers = atoi(argv[++i]);
 		else if (!strcmp(argv[i], "--poppers") && i + 1 < argc) npoppers = atoi(argv[++i]);
 		else if (!strcmp(argv[i], "--ops") && i + 1 < argc) nops = atoi(argv[++i]);
 		else if (!strcmp(argv[i], "--nodes") && i + 1 < argc) nnodes = atoi(argv[++i]);
 		else if (!strcmp(argv[i], "--c17")) c17 = 1;
 	}
+#ifdef WITH_RCU
+	scheme = SCH_RCU;
+#else
+	if (scheme == SCH_RCU) { fprintf(stderr, "built without WITH_RCU\n"); return 9; }
+#endif
 	if (nnodes > MAXN) nnodes = MAXN;
 	if (scheme == SCH_SINGLE) npoppers = 1;
 	if (npoppers < 1) npoppers = 1;
@@ -253,9 +389,18 @@ int main(int argc, char **argv)
 		vrt_name(&nodes[i].n, sizeof(nodes[i].n), "n%d", i);
 		pool_free[i] = 1;
 	}
+#ifdef WITH_RCU
+	vrt_name(&rcu_gp.ctr, sizeof(rcu_gp.ctr), "gp.ctr");
+	vrt_name(&rcu_gp.futex, sizeof(rcu_gp.futex), "gp.futex");
+	vrt_name(&rcu_gp_lock, sizeof(rcu_gp_lock), "gp_lock");
+	vrt_name(&rcu_registry_lock, sizeof(rcu_registry_lock), "registry_lock");
+	vrt_name(&gp_waiters.stack.head, sizeof(void *), "waiters.head");
+#endif
 	drainer_tid = 1;
+	reclaimer_tid = 1 + npoppers + npushers;
 	running_others = npushers + npoppers - 1;
-	vrt_raw("CFG stack=wfs scheme=%s consumer=%d end=%lu nodes=%d legacymb=%d", scheme == SCH_SINGLE ? "single" : "mutex",
+	vrt_raw("CFG stack=wfs scheme=%s consumer=%d end=%lu nodes=%d legacymb=%d",
+		scheme == SCH_SINGLE ? "single" : scheme == SCH_RCU ? "rcu" : "mutex",
 		drainer_tid, (unsigned long)CDS_WFS_END, nnodes,
 #ifdef CONFIG_RCU_EMIT_LEGACY_MB
 		1
@@ -267,6 +412,10 @@ int main(int argc, char **argv)
 		tid = vrt_spawn("consumer", consumer, (void *)(long)i);
 	for (i = 0; i < npushers; i++)
 		tid = vrt_spawn("pusher", pusher, NULL);
+#ifdef WITH_RCU
+	tid = vrt_spawn("reclaimer", reclaimer, NULL);
+	if (tid != reclaimer_tid) { fprintf(stderr, "internal: reclaimer tid\n"); return 9; }
+#endif
 	if (c17) tid = vrt_spawn("freezer", c17_freezer, NULL);
 	(void)tid;
 	vrt_finish();
